@@ -1,4 +1,5 @@
 import YakModel.Proofs.LockOrderProofs
+import YakModel.Proofs.CollapseProofs
 /-!
 # C09 — Operations always complete: no deadlock and no lock left held (safety core)
 
@@ -26,5 +27,66 @@ theorem no_deadlock {L : Type} [DecidableEq L] (lt : L → L → Prop)
 theorem lock_free_threads_block_nobody {L : Type} [DecidableEq L] (s : Sys L) (t : Nat)
     (h : ∀ l, s.holder l ≠ some t) : ∀ u l, s.waits u = some l → s.holder l ≠ some t :=
   Yak.Proto.LockOrder.lock_free_threads_block_nobody s t h
+
+/-! ### The root-collapse protocol, step by step (`Proto/Collapse`)
+
+One concrete instance of the structural change the quantifier of C09 singles out ("the root-lock
+hand-over when the root changes while a thread is waiting for its parent lock"): a root interior
+node with one separator over two border nodes `A`, `B`, each holding one key; thread `t0` removes
+`A`'s key and `t1` removes `B`'s, at the granularity of `border_node::delete_of`,
+`base_node::lock_parent` and `interior_node::delete_of` (one model step per lock attempt, read or
+group of stores; 173 reachable states, enumerated and checked by the kernel, no `native_decide`).
+**These are theorems about this finite instance, for all of its interleavings — not about arbitrary
+tree shapes.** `Cfg.fix` selects the repaired code (commit "fix: a border node that survives as the
+empty deleted root drops its sibling links"); D12 is the counterexample for the unrepaired one and
+was first observed on the real code (`corpus/C09/d12_*.json`). -/
+
+/-- no lock left held: once both removers are done (or never started), every node lock and the
+    root lock is free — with or without the repair. -/
+theorem collapse_no_lock_left_held (cfg : Yak.Proto.Collapse.Cfg) (s : Yak.Proto.Collapse.State)
+    (hr : Yak.Proto.Collapse.Reach cfg s) (hq : Yak.Proto.Collapse.quiescent s) :
+    s.a.lock = none ∧ s.b.lock = none ∧ s.i.lock = none ∧ s.rootLock = none :=
+  Yak.Proto.Collapse.no_lock_left_held hr hq
+
+/-- no deadlock: as long as some thread has started and not finished, a started thread can move. -/
+theorem collapse_no_deadlock (cfg : Yak.Proto.Collapse.Cfg) (s : Yak.Proto.Collapse.State)
+    (hr : Yak.Proto.Collapse.Reach cfg s) (ha : ∃ t, (s.pc t).active = true) :
+    ∃ t, (s.pc t).active = true ∧ (Yak.Proto.Collapse.step? cfg s (.step t)).isSome = true :=
+  Yak.Proto.Collapse.no_deadlock_started hr ha
+
+/-- locks are exclusive in every reachable state. -/
+theorem collapse_mutual_exclusion (cfg : Yak.Proto.Collapse.Cfg) (s : Yak.Proto.Collapse.State)
+    (hr : Yak.Proto.Collapse.Reach cfg s) (l : Yak.Proto.Collapse.LockId) (t t' : Yak.Proto.Collapse.Tid)
+    (h : l ∈ s.held t) (h' : l ∈ s.held t') : t = t' := Yak.Proto.Collapse.mutual_exclusion hr l t t' h h'
+
+/-- with the repair, no node that is still in the tree links to a retired sibling at quiescence
+    (so a later remove cannot spin on a deleted neighbour while holding its own lock, and a scan
+    cannot walk into a retired node). -/
+theorem collapse_no_dangling_link (cfg : Yak.Proto.Collapse.Cfg) (hfix : cfg.fix = true)
+    (s : Yak.Proto.Collapse.State) (hr : Yak.Proto.Collapse.Reach cfg s)
+    (hq : Yak.Proto.Collapse.quiescent s) :
+    ∀ L : Yak.Proto.Collapse.Leaf, s.leafRetired L = false →
+      (∀ M, (s.leaf L).next = some M → s.leafRetired M = false) ∧
+      (∀ M, (s.leaf L).prev = some M → s.leafRetired M = false) :=
+  Yak.Proto.Collapse.no_dangling_link_fixed hfix hr hq
+
+/-- D12: without the repair both stale links are reachable — the surviving root `A` with
+    `next = B` retired, and the surviving root `B` with `prev = A` retired. -/
+theorem D12_counterexample :
+    (∃ s, Yak.Proto.Collapse.Reach { fix := false } s ∧ Yak.Proto.Collapse.quiescent s ∧
+      s.rootPtr = .A ∧ s.retA = false ∧ s.a.next = some .B ∧ s.retB = true) ∧
+    (∃ s, Yak.Proto.Collapse.Reach { fix := false } s ∧ Yak.Proto.Collapse.quiescent s ∧
+      s.rootPtr = .B ∧ s.retB = false ∧ s.b.prev = some .A ∧ s.retA = true) :=
+  Yak.Proto.Collapse.D12_counterexample
+
+/-- the outcome when both removes are done: the interior node and exactly one leaf are retired, the
+    other leaf is the root (deleted, flagged root, no parent) — "remain empty deleted root node". -/
+theorem collapse_final_shape (cfg : Yak.Proto.Collapse.Cfg) (s : Yak.Proto.Collapse.State)
+    (hr : Yak.Proto.Collapse.Reach cfg s) (hd : Yak.Proto.Collapse.bothDone s) :
+    s.retI = true ∧ s.i.deleted = true ∧ s.i.root = false ∧
+    ∃ L : Yak.Proto.Collapse.Leaf, s.leafRetired L = true ∧ s.leafRetired L.other = false ∧
+      s.rootPtr = L.other.node ∧ (s.leaf L.other).deleted = true ∧
+      (s.leaf L.other).root = true ∧ (s.leaf L.other).parent = false ∧
+      (s.leaf L).root = false := Yak.Proto.Collapse.both_done_shape hr hd
 
 end Yak.Props.C09
